@@ -175,6 +175,12 @@ func (env *SpecEnv) ident(name string) (sval, error) {
 	if t, ok := env.names[name]; ok {
 		return sval{t, env.types[name]}, nil
 	}
+	if strings.HasSuffix(name, "#0") && env.lookup == nil {
+		// entry value of a parameter, at a call site: the argument
+		if t, ok := env.names[strings.TrimSuffix(name, "#0")]; ok {
+			return sval{t, env.types[strings.TrimSuffix(name, "#0")]}, nil
+		}
+	}
 	if env.lookup != nil {
 		if t, typ, ok := env.lookup(name); ok {
 			return sval{t, typ}, nil
@@ -365,6 +371,22 @@ func (env *SpecEnv) fieldOfRef(ref Term, stT types.Type, name string) (sval, err
 		if e.names[key] == 0 {
 			e.names[key] = 1
 			e.assumeAbout(and(le(intLit(0), slLen(v)), le(slLen(v), slCap(v)), le(intLit(0), slOff(v))), v)
+		}
+	}
+	if b, ok := ft.Underlying().(*types.Basic); ok && fs == SInt && b.Info()&types.IsInteger != 0 && len(env.bound) == 0 && (isUnsigned(ft) || intBits(ft) < 64) {
+		// sized / unsigned integer fields hold values of their type
+		key := "specfact:" + v.S
+		if e.names[key] == 0 {
+			e.names[key] = 1
+			bits := intBits(ft)
+			switch {
+			case isUnsigned(ft) && bits < 64:
+				e.assumeAbout(and(le(intLit(0), v), lt(v, intLit(1<<uint(bits)))), v)
+			case isUnsigned(ft):
+				e.assumeAbout(le(intLit(0), v), v)
+			default:
+				e.assumeAbout(and(le(intLit(-(1<<uint(bits-1))), v), lt(v, intLit(1<<uint(bits-1)))), v)
+			}
 		}
 	}
 	return sval{v, ft}, nil
@@ -813,6 +835,16 @@ func (env *SpecEnv) call(x *SExpr) (sval, error) {
 				return sval{t, types.Typ[types.Bool]}, nil
 			}
 			return sval{tFalse, types.Typ[types.Bool]}, nil
+		}
+	case "sitearg":
+		// sitearg(NAME, i): argument i of the call that is site NAME, as it was
+		// when the call was reached (arbitrary if it was not)
+		if len(args) == 2 && args[0].Op == "ident" && args[1].Op == "int" {
+			key := args[0].Name + "." + args[1].Name
+			if sv, ok := env.f.siteArgs[key]; ok {
+				return sv, nil
+			}
+			return sval{}, fmt.Errorf("sitearg: site %s has no recorded argument %s", args[0].Name, args[1].Name)
 		}
 	}
 	return env.callNamed(fnx.Name, args)
